@@ -23,8 +23,8 @@ REPO = "/repo"
 
 
 def sh(cmd, cwd, timeout=900):
-    p = subprocess.run(cmd, cwd=cwd, env=common.go_env(), capture_output=True, text=True, timeout=timeout)
-    return p.returncode, (p.stdout + p.stderr)
+    p = subprocess.run(cmd, cwd=cwd, env=common.go_env(), capture_output=True, timeout=timeout)
+    return p.returncode, (p.stdout + p.stderr).decode("utf-8", "replace")
 
 
 def main():
@@ -83,7 +83,7 @@ def main():
     meta["demo_run"] = demo_re
     # run the checks with the patch planted in /repo
     r = subprocess.run([sys.executable, os.path.join(VERIF, "drv", "mut.py"), "--patch", os.path.join(dst, "patch.diff"), "--"] + props,
-                       cwd=VERIF, capture_output=True, text=True)
+                       cwd=VERIF, capture_output=True, text=True, errors="replace")
     print(r.stdout[-3000:])
     res = {}
     for line in r.stdout.splitlines():
